@@ -14,6 +14,7 @@ RULE = ("seeded pairs from families {uniform, tiny 1e-12..1e-3 deg, near-antipod
         "signature = (function, family, input form, units, separation decade)")
 TRUSTED = ["numpy long double sin/cos/atan2/sqrt"]
 ASSUMPTIONS = ["latitudes within [-90,90]; tolerance sphdist 1e-11 deg, gcirc 2e-6 deg (from the statement)"]
+THOROUGH_ROUNDS = 8      # the thorough tier runs the generator over this many derived seeds
 REQUIRED = {"quick": {"C08.sphdist": 2500, "C08.gcirc": 1200, "C08.relations": 1500},
             "thorough": {"C08.sphdist": 50000, "C08.gcirc": 25000, "C08.relations": 30000}}
 FAMS = ["uniform", "tiny", "antipodal", "band", "polar", "seam", "equal"]
